@@ -123,11 +123,18 @@ def runC04 (fields : List String) (obs : String) : String × String × String :=
           let seqModel := (match r.2 with | .ok _ => "ok#" | .error _ => "err#") ++ matObs k r.1
           let specM : Option (Mat Val) :=
             if twoD then (match src with | .scalar v => update2 f m s1 s2 v | _ => none) else update1 f m s1 src
+          let specM : Option (Mat Val) :=
+            if label == "rowcol" then (match src with | .mat w => update2v f m s1 s2 w | .scalar v => update2 f m s1 s2 v) else specM
           let unchanged := "err#" ++ matObs k m
           let spec := match specM with
             | some m' => "ok#" ++ matObs k m'
             | none => unchanged
           let verdict := if obs == spec then "ok" else "bad:expected " ++ spec
+          if label == "rowcol" then
+            -- a whole row or column from a vector: the reference result, or (for element kinds and storage
+            -- forms without such a kernel) a clean rejection, which is finding C04-D7
+            (if obs == unchanged then unchanged else spec, verdict, if obs == unchanged then "C04-D7" else "-")
+          else
           if label == "unsupported" then (unchanged, verdict, "C04-D7")
           else if label == "deviant" then
             let recorded := match rest with
